@@ -11,7 +11,9 @@ RULE = ('Exhaustive enumeration of 7 letters x 7 alterations (-3..+3) x octaves 
         'imported (expected: letter, alteration and octave computed by the harness), exported, exported a second time '
         'from the same object, and the object is compared before/after; in the other direction an AgnosticPitch built '
         'directly from (name, octave) is exported twice and re-imported.  Importer and exporter objects are also '
-        'reused across the whole grid (one shared instance) and compared with fresh instances.  Non-trivial = the '
+        'reused across the whole grid (one shared instance) and compared with fresh instances; in two batch cases one '
+        'importer imports the whole grid (forwards, backwards) before any result is inspected: every returned object must '
+        'still hold its own pitch.  Non-trivial = the '
         'spelling has an accidental or more than one letter.')
 ASSUMPTIONS = ['kv/pitch.py spelling rule (c = octave 4, C = octave 3, one more letter per octave away) is the reference']
 
@@ -23,7 +25,29 @@ def name_of(l, alt):
 _shared = {}
 
 
+def check_batch(case):
+    """one importer imports the whole grid first; every pitch object it handed out must still be the pitch it was when
+    it was returned (the importer must not keep working on an object it has given away), and export as its spelling"""
+    imp, exp = kp.HumdrumPitchImporter(), kp.HumdrumPitchExporter()
+    cells = list(grid())
+    if case.get('reverse'):
+        cells.reverse()
+    got = [(c, imp.import_pitch(M.spell(c['l'], c['alt'], c['o']))) for c in cells]
+    for c, p in got:
+        s, expn = M.spell(c['l'], c['alt'], c['o']), name_of(c['l'], c['alt'])
+        if (p.name, p.octave) != (expn, c['o']):
+            raise Bad('import-result-changed-later', f'the pitch returned by import_pitch({s!r}) reads ({p.name!r},{p.octave}) after the same '
+                                                     f'importer imported other spellings; expected ({expn!r},{c["o"]})')
+        if exp.export_pitch(p) != s:
+            raise Bad('export-after-batch', f'export of the pitch imported from {s!r} gives {exp.export_pitch(p)!r}')
+    if len({id(p) for _, p in got}) != len(got):
+        raise Bad('import-shares-objects', 'one importer returned the same object for different imports')
+    return Result(nontrivial=True, classes=['batch'], sample={'batch': len(got)}, evals=len(got))
+
+
 def check(case):
+    if case.get('batch'):
+        return check_batch(case)
     l, alt, o = case['l'], case['alt'], case['o']
     s = M.spell(l, alt, o)
     expn = name_of(l, alt)
@@ -69,6 +93,7 @@ def grid():
 def run(ctx):
     _shared.clear()
     ctx.check_all(grid(), check)
+    ctx.check_all([{'batch': True}, {'batch': True, 'reverse': True}], check)
     ctx.rec.exhaustive = True
     ctx.rec.notes['grid'] = '7x7x11'
 
